@@ -266,6 +266,14 @@ fn hot_reloading_thread(
         loop {
             match cache_msg.try_recv() {
                 Ok(CacheMessage::Ptr(ptr, reloader, token)) => {
+                    // Take into account every event that was sent before
+                    // this request. Requests have priority over events, so
+                    // events could otherwise be ignored for as long as
+                    // `hot_reload` is called repeatedly.
+                    for msg in events.try_iter() {
+                        cache.handle_events(msg);
+                    }
+
                     // Safety: The received pointer is guaranteed to
                     // be valid until we reply back
                     unsafe {
